@@ -126,6 +126,15 @@ fn c13_proof() {
         quotes.push((undecodable_peer_id(), forged));
         all_ok = false;
     }
+    if choice(2) == 1 {
+        // a further entry for an already listed payee that re-uses the genuine key and signature
+        // over altered signed fields
+        let (id, genuine) = quotes[0].clone();
+        let mut altered = genuine.clone();
+        altered.quoting_metrics.received_payment_count += 7;
+        quotes.push((id, altered));
+        all_ok = false;
+    }
     let proof = ProofOfPayment { peer_quotes: quotes };
     let got = proof.verify_for(me);
     note(format!("quotes={n} self_is_payee={self_is_payee} all_quotes_verify={all_ok}"));
